@@ -51,20 +51,25 @@ def rule_literal_termination(run, prog, rid="R-11.7"):
         fn = prog.method("Lexer", name)
         run.require(fn is not None, f"anchor vanished: Lexer.{name}")
         units = ["a", " ", "\\" + quote, "\\\\", other]
+        # ... and the same units standing right behind a line splice (translation phase 2 removes it before the literal is read:
+        # an escape sequence that begins a continuation line is still one escape sequence)
+        spliced = units + ["\\\n" + u for u in units] + ["??/\n" + units[2]]
         bad, n = None, 0
         try:
             for k in range(0, 4):
-                for combo in itertools.product(units, repeat=k):
+                for combo in itertools.product(units if k == 3 else spliced, repeat=k):
                     body = "".join(combo)
                     tails = [quote, "", "\\"] + (["\n", quote + "\n"] if quote == "'" else [])
                     for tail in tails:
                         for pre in (prefixes if k <= 1 else [""]):
                             src = pre + quote + body + tail
+                            if "\\\\\n" in src:
+                                continue          # two backslashes and a newline: escape-then-newline or splice, read either way
                             n += 1
                             sim = LexerSim(prog, src)
                             out = sim.call(name)
                             got = sorted(sim.error_names())
-                            count, how = _scan(body + tail, quote)
+                            count, how = _scan((body + tail).replace("\\\n", "").replace("??/\n", ""), quote)
                             want = []
                             if quote == '"':
                                 if how != "closed":
